@@ -26,6 +26,10 @@ def build_jobs(t: str, sd: int):
             if t != "quick" or v in (2, 5, 6, 8, 10) or mode == "A":
                 fams += gen.control_family(mode, v, t != "quick")
             fams += gen.env_family(mode, v)
+            if v >= 9 and mode == "A":
+                # from version 9 the scratch-slot optimiser runs by default: store/load placement programs against the reference
+                from ..recipe import gen_opt
+                fams += gen_opt.opt_family(mode, v, False)[:: (1 if t != "quick" else 3)]
             if nrand:
                 fams += gen.random_family(mode, v, sd, nrand)
             for (name, rec, opts) in fams:
